@@ -6,8 +6,13 @@ Correspondence, two oracles per case (generated well-typed programs and near-mis
   * the LEAN type checker `checkProg` (proved sound: `C03_check_sound`, `C03_check_run_output_width`) on annotations guessed
     by the unverified unification pre-pass (`drv_c03`, "infer" verdict) and on the generator's own annotations ("annotated"
     verdict): accept with the output width / reject.
-The two verdicts are compared in both directions; every disagreement must fall into a named class (below) or is a violation."""
-import collections
+The two verdicts are compared in both directions; every disagreement must fall into a named class (below) or is a violation.
+
+Shipped-sources stream (`shipped_stream`): EVERY `.mmm` shipped with the repository (lib/, examples/, mimium-test/tests/mmm) and the
+minimised past failures in corpus/C03/ are compiled whole, under their OWN path, and run for a few samples on both back ends (hooks
+on): each must be answered by `ok`, by diagnostics, or be a library file without `dsp` — a panic, abort, hang, run-time error or
+acceptance by one back end only is a violation unless the (file, signature) pair is a listed finding."""
+import collections, re
 from vlib import *
 import progcheck as pc
 sys.path.insert(0, os.path.join(VERIF, "tools", "gen"))
@@ -66,12 +71,6 @@ def lean_verdicts(cases, run_times=3):
     return out
 
 
-def nested_output(lv):
-    """the Lean checker's output type is a tuple with a tuple component"""
-    f = lv.split(" ", 2)
-    return len(f) > 2 and f[2].count("(t") > 1
-
-
 def illtyped_class(kind, why, vm):
     """listed finding a crashing ill-typed-but-accepted mutant belongs to (by mutation kind and symptom)"""
     if kind == "apply_var":
@@ -85,8 +84,9 @@ def illtyped_class(kind, why, vm):
     if kind in ("tup_drop", "tup_add"):
         return "K2" if "index out of bounds" in why else "K4"
     if kind in ("lit_tuple", "operand_tuple"):
-        # the tuple reaches the dsp result (channel count 0 / run_dsp -1) or a scalar position
-        return "K3" if (vm.startswith("ok 0 0") or vm.startswith("ok 1 0") or "run_dsp returned" in why) else "K4"
+        # the tuple reaches a scalar position (a tuple that reaches the dsp RESULT is fine since the repair of K3: nested
+        # tuples count one channel per numeric leaf)
+        return "K4"
     if kind == "arg_tuple":
         return "K4"
     return None
@@ -122,8 +122,6 @@ def classify(c, real, lean):
     if L and R:
         if why is None:
             return cell, "agree", ""
-        if nested_output(li):
-            return cell, "known:K3", why
         if sole_tuple_arg:
             return cell, "known:K4", why
         return cell, "violation", "a program the Lean checker accepts (well typed in the core type system) is accepted by the real checker and does not run safely: " + why
@@ -142,11 +140,157 @@ def classify(c, real, lean):
     return cell, "outside-model", kind
 
 
+# names that only exist when a plugin the harness cannot load (GUI, MIDI, audio files) is present; the scheduler CAN be loaded:
+# files that need it are run again with it
+PLUGIN_NAMES = {"_mimium_schedule_at": "scheduler", "Probe": "guitools", "Control": "guitools", "Slider": "guitools",
+                "set_midi_port": "midi", "midi_note_mono": "midi", "bind_midi_note_mono": "midi",
+                "Sampler_mono": "symphonia", "gen_sampler_mono": "symphonia"}
+NOT_FOUND = re.compile(r'Variable "([^"]+)" not found')
+DEFINES_DSP = re.compile(r'\b(fn|let|letrec)\s+dsp\b')
+SHIPPED_BAD = ("panic", "runtime-error", "harness-died", "timeout")
+
+
+def strip_comments(src):
+    return re.sub(r'//[^\n]*|/\*.*?\*/', ' ', src, flags=re.S)
+
+
+def signature(backend, out):
+    """stable name of a failure: back end, class, message with numbers abstracted"""
+    cls, _, msg = out.partition(" ")
+    return f"{backend}-{cls}: " + re.sub(r'\d+', 'N', msg)[:110].strip()
+
+
+def missing_plugins(out):
+    """plugins named by a compile error all of whose unbound variables are plugin-provided names (else None)"""
+    names = NOT_FOUND.findall(out)
+    if names and all(n in PLUGIN_NAMES for n in names):
+        return sorted({PLUGIN_NAMES[n] for n in names})
+    return None
+
+
+def shipped_class(src, vm, wasm, times):
+    """-> (class, None) for the acceptable outcomes ok | compile-error | needs-plugin:<p> | no-dsp,
+          ("violation", signature) otherwise"""
+    cv, cw = vm.split(" ")[0], wasm.split(" ")[0]
+    has_dsp = bool(DEFINES_DSP.search(strip_comments(src)))
+    # a file without `dsp` (library, fixture of the parser): global initialisation runs, the VM reports no channels and no
+    # dsp function (`ok 0 0`), the WASM runtime has no dsp export to call (`run_dsp returned -1`)
+    if not has_dsp and vm.startswith("ok 0 0") and (wasm.startswith("runtime-error run_dsp returned -1") or wasm.startswith("ok 0 0")):
+        return "no-dsp", None
+    for name, o, c in (("vm", vm, cv), ("wasm", wasm, cw)):
+        if c in SHIPPED_BAD:
+            return "violation", signature(name, o)
+    if cv != cw:
+        return "violation", f"accepted-by-one-backend-only(vm={cv},wasm={cw}): " + re.sub(r'\d+', 'N', (vm if cv != "ok" else wasm))[:90]
+    if cv == "compile-error":
+        if vm[len(cv):].strip() == "" or wasm[len(cw):].strip() == "":
+            return "violation", "rejected-without-a-diagnostic"
+        mp = missing_plugins(vm)
+        return ("needs-plugin:" + "+".join(mp), None) if mp else ("compile-error", None)
+    if cv == "ok":
+        why = judge(vm, wasm, None, times)
+        if why is not None:
+            return "violation", re.sub(r'\d+', 'N', why)[:110]
+        if vm.split(" ")[2] != wasm.split(" ")[2]:
+            return "violation", "channel-count-differs(vm=%s,wasm=%s)" % (vm.split(" ")[2], wasm.split(" ")[2])
+        if vm.split(" ")[2] == "0":
+            return "violation", "dsp-defined-but-no-output-channel"
+        return "ok", None
+    return "violation", f"unclassified outcome vm={cv} wasm={cw}"
+
+
+def shipped_cases(times):
+    import corpusmut
+    repo = REPO if os.path.isdir(os.path.join(REPO, "lib")) else "/repo"
+    cases = []
+    cdir = os.path.join(VERIF, "corpus", "C03")
+    for fn in sorted(os.listdir(cdir)) if os.path.isdir(cdir) else []:
+        if fn.endswith(".json"):
+            r = json.load(open(os.path.join(cdir, fn)))
+            cases.append(dict(id="corpus:" + fn[:-5], file="corpus/C03/" + fn, src=r["src"], sx=None, times=r.get("times", times),
+                              inputs=r.get("inputs", []), scheduler=r.get("scheduler", False), expect=r.get("expect"), kind="shipped"))
+    for f in corpusmut.shipped_files(repo):
+        cases.append(dict(id="file:" + f, file=os.path.relpath(f, repo), path=f, src=open(f, encoding="utf-8", errors="replace").read(), sx=None,
+                          times=times, inputs=[[0.5]] * times, scheduler=False, kind="shipped"))
+    return cases
+
+
+def run_shipped(cases, timeout=120):
+    """outcome per case: (class, signature|None, vm, wasm); files that only miss the scheduler plugin run again with it"""
+    res = pc.run_batch(cases, want_model=False, timeout=timeout, nshards=max(1, min(NCPU, len(cases))))
+    out = {}
+    again = []
+    for c in cases:
+        vm, wasm, _ = res[c["id"]]
+        cls, sig = shipped_class(c["src"], vm, wasm, c["times"])
+        out[c["id"]] = (cls, sig, vm, wasm)
+        if cls == "needs-plugin:scheduler" and not c.get("scheduler"):
+            again.append(dict(c, scheduler=True))
+    if again:
+        res = pc.run_batch(again, want_model=False, timeout=timeout, nshards=min(NCPU, len(again)))
+        for c in again:
+            vm, wasm, _ = res[c["id"]]
+            cls, sig = shipped_class(c["src"], vm, wasm, c["times"])
+            out[c["id"]] = (cls if sig else cls + "(with scheduler)", sig, vm, wasm)
+            c0 = next(x for x in cases if x["id"] == c["id"])
+            c0["scheduler"] = True
+    return out
+
+
+def shipped_stream(ctx, known, times=4):
+    """every shipped source + corpus/C03, whole, under its own path. Returns the coverage record."""
+    t0 = time.time()
+    cases = shipped_cases(times)
+    out = run_shipped(cases)
+    listed = {(k["file"], k["signature"]): k for k in known if "file" in k and "signature" in k}
+    seen_listed = set()
+    classes, bad, unexpected_diag, samples = collections.Counter(), collections.defaultdict(list), [], []
+    for c in cases:
+        cls, sig, vm, wasm = out[c["id"]]
+        if sig is None and c.get("expect") and cls.split("(")[0] != c["expect"]:
+            sig = f"corpus case answered `{cls}`, recorded as `{c['expect']}`"
+        if sig is None:
+            classes[cls] += 1
+            if cls == "compile-error" and c.get("path") and not re.search(r"fail|error|invalid", os.path.basename(c["file"])):
+                unexpected_diag.append({"file": c["file"], "diagnostic": vm[len("compile-error "):][:160]})
+            if cls.startswith("ok") and len(samples) < 3 and pc.nontrivial(vm) and len(c["src"]) < 600:
+                samples.append({"file": c["file"], "src": c["src"], "vm": vm[:120], "wasm": wasm[:120]})
+        elif (c["file"], sig) in listed:
+            classes["known-finding"] += 1
+            seen_listed.add((c["file"], sig))
+        else:
+            classes["VIOLATION"] += 1
+            bad[sig].append(c)
+    for (f, sig), k in listed.items():
+        if (f, sig) in seen_listed:
+            ctx.known_finding(f"{k['id']} {k['what']} [still fails: {f}: {sig}]")
+        else:
+            ctx.notes.append(f"known finding {k['id']} ({f}) no longer reproduces")
+    for sig, cs in sorted(bad.items(), key=lambda kv: -len(kv[1])):
+        cs.sort(key=lambda c: len(c["src"]))
+        c = cs[0]
+        _, _, vm, wasm = out[c["id"]]
+        ctx.violation(f"shipped source does not compile-and-run safely under its own path: {sig} — {len(cs)} file(s): "
+                      + ", ".join(x["file"] for x in cs[:12]),
+                      {"kind": "shipped", "src": c["src"], "path": c.get("path"), "file": c["file"], "times": c["times"], "inputs": c["inputs"],
+                       "scheduler": c.get("scheduler", False), "signature": sig, "vm": vm[:1500], "wasm": wasm[:1500],
+                       "files": [x["file"] for x in cs]})
+    return {"files": sum(1 for c in cases if c.get("path")), "corpus_cases": sum(1 for c in cases if not c.get("path")),
+            "classes": dict(sorted(classes.items())), "violating_signatures": {s: [x["file"] for x in cs] for s, cs in bad.items()},
+            "diagnostics_on_files_not_named_fail/error/invalid": unexpected_diag, "samples": samples, "times": times,
+            "wall_s": round(time.time() - t0, 1),
+            "rule": "whole file, own path, VM (hooks on) + WASM; acceptable = ok (same channel count, full output) | diagnostics on both | "
+                    "needs a plugin the harness cannot load (only plugin-provided names unbound; the scheduler is loaded on a second run) | "
+                    "no `dsp` defined (VM `ok 0 0`, WASM `run_dsp returned -1`); anything else (panic, abort, hang > 120 s per shard, "
+                    "run-time error, one back end only, dsp without channels) is a violation"}
+
+
 def main(ctx, args):
     ctx.assumptions += [
         "memory errors are observed through the cfg(mimium_verif) hooks (bounds assertion at every VM state access) and through debug assertions/overflow checks of the harness build; the Rust `unsafe` blocks themselves are not verified",
         "streams: well-typed generated programs (profiles core, deep, closure_assign) and near-miss mutants obtained by type-changing mutations (tuple arity, projection index, argument count/type, unbound name, applying a non-function, mismatched if arms, tuple/lambda operands) — whatever the real type checker accepts must run safely on both backends; the verdict of the Lean checker (proved sound) is compared with the real verdict on every case",
         "the annotation inference in front of the Lean checker (Model/CoreInfer.lean) is not verified and need not be: C03_check_sound holds for every annotation table",
+        "shipped-sources stream: every .mmm under lib/, examples/, mimium-test/tests/mmm is compiled whole under its own path and run for 4 samples on both back ends; files that need the GUI / MIDI / audio-file plugins are only seen up to their `Variable … not found` diagnostic (the harness cannot load those plugins); whether the outputs of the two back ends are EQUAL is C01's statement, not checked here",
     ]
     known = load_known("C03")
     known_ids = {k["id"] for k in known}
@@ -161,6 +305,16 @@ def main(ctx, args):
     plan = [("core", 500), ("deep", 150), ("closure_assign", 150), ("aggr", 400), ("nested_assign", 150)] if ctx.tier == "quick" else [("core", 6000), ("deep", 2000), ("closure_assign", 2000), ("aggr", 4000), ("nested_assign", 2000)]
     rng = coregen.Rng(ctx.seed * 104729 + 3)
     cases = []
+    if args.replay and json.load(open(args.replay)).get("kind") == "shipped":
+        r = json.load(open(args.replay))
+        c = dict(id="replay", file=r.get("file", "replay"), path=r.get("path"), src=r["src"], sx=None, times=r.get("times", 4),
+                 inputs=r.get("inputs", []), scheduler=r.get("scheduler", False), kind="shipped")
+        cls, sig, vm, wasm = run_shipped([c])["replay"]
+        log(f"  shipped replay: class={cls} signature={sig}\n  vm:   {vm[:300]}\n  wasm: {wasm[:300]}")
+        if sig is not None:
+            ctx.violation(f"shipped source does not compile-and-run safely under its own path: {sig}", dict(r, vm=vm[:1500], wasm=wasm[:1500]))
+        ctx.coverage.update({"evaluations": 1, "replay_class": cls})
+        ctx.finish("proof")
     if args.replay:
         r = json.load(open(args.replay))
         cases = [dict(id="replay", src=r["src"], sx=None, asx=r.get("asx"), inputs=r.get("inputs", []), times=r.get("times", 10), nout=None,
@@ -175,7 +329,7 @@ def main(ctx, args):
                 cases.append(dict(pr, nout=nout, kind="welltyped", asx=pr["prog"].asx()))
                 for j in range(2):
                     # every mutation kind is generated; accepted instances that crash on the pinned tree are classified against
-                    # the listed findings (K1 apply_var, K2 tuple width, K3 tuple-valued results, K4 tuple for scalar, K8/K10 arity, K9 arms)
+                    # the listed findings (K1 apply_var, K4 tuple for scalar, K8/K10 arity, K9 arms)
                     name, q = coregen.mutant(pr["prog"], rng)
                     if q is not None:
                         q = coregen.strip_record_annotations(q)
@@ -237,6 +391,8 @@ def main(ctx, args):
             stats["evaluations"] += 1
             if cls in ("panic", "runtime-error", "harness-died"):
                 failures.append((c, f"vm-{cls}: " + vm[:200], vm, "-"))
+    shipped_cov = shipped_stream(ctx, known) if not args.replay else {}
+    stats["evaluations"] += shipped_cov.get("files", 0) + shipped_cov.get("corpus_cases", 0)
     kc = [dict(id=k["id"], src=k["src"], sx=None, inputs=k.get("inputs", []), times=k.get("times", 6)) for k in known if "src" in k]
     kres = pc.run_batch(kc, want_model=False, nshards=1) if kc else {}
     for k in known:
@@ -287,6 +443,7 @@ def main(ctx, args):
         "failures": len(failures),
         "outcomes": {k: v for k, v in stats.items() if "_" in k and k != "evaluations"},
         "heap_and_closure_programs(VM, hooks on)": dict(heap_stats),
+        "shipped_sources": shipped_cov,
         "verdict_matrix": dict(sorted(matrix.items())),
         "verdict_matrix_legend": "L+/L- Lean checker accepts/rejects, R+/R- real checker accepts/rejects (no diagnostic), ! = accepted by the real checker but not run safely (crash, one back end only, wrong width)",
         "real_accepts_outside_core_model": dict(sorted(outside.items())),
